@@ -97,6 +97,7 @@ def gen_case(seed, tier, index=0):
         opts["multi_line"] = True
     extra = []
     usage = None
+    links, hardlinks, alias_names = [], [], []
     if family == "poison":
         tok = rng.pick(sorted(POISON))
         if rng.chance(0.7):
@@ -124,7 +125,7 @@ def gen_case(seed, tier, index=0):
             for m in list(metas):
                 if m["kind"] == "styled" and m.get("existing_lic") and not m.get("sibling") and rng.chance(0.7):
                     d, base = m["path"].rsplit("/", 1)
-                    twin = f"{d}/twin-{base}" if "." in base else None
+                    twin = f"{d}/twin-{base}" if base.startswith("f") and "." in base else None  # not the by-name types
                     if twin is None:
                         continue
                     st = m["style"]
@@ -179,7 +180,16 @@ def gen_case(seed, tier, index=0):
             pos = rng.randrange(len(metas) + 1)
             files.insert(pos, {"path": "d0/trigger.zzz", "content": "unknown\n"})
             metas.insert(pos, {"kind": "unrecognised", "path": "d0/trigger.zzz", "existing_lic": False, "sibling": False})
-    names = [m["path"] for m in metas]
+            if rng.chance(0.4):
+                # the unrecognised file has a second name with a recognised extension (hard link or symlink), named in
+                # the same invocation: still a usage error, still nothing touched, whichever name the tool meets first
+                alias = {"path": "d0/alias.py", "target": "trigger.zzz"} if rng.chance(0.5) else None
+                if alias:
+                    links.append(alias)
+                else:
+                    hardlinks.append({"path": "d0/alias.py", "target": "d0/trigger.zzz"})
+                alias_names.append("d0/alias.py")
+    names = [m["path"] for m in metas] + alias_names
     rng.shuffle(names)
     cwd, named_dirs, root_opt = ".", None, []
     if family != "usage" and rng.chance(0.25):
@@ -197,7 +207,15 @@ def gen_case(seed, tier, index=0):
     obs = [{"kind": "reuse_info", "path": p} for m in metas for p in (m["path"], m["path"] + ".license")]
     step = {"argv": root_opt + ["--no-multiprocessing"] + argv, "clock": "2024-05-05T05:05:05", "observe": obs, "cwd": cwd}
     hs = rng.sample(range(8), 2)
-    return {"prop": PROP, "seed": seed, "world": {"files": files + extra}, "metas": metas, "opts": opts, "family": family,
+    if family in ("poison", "template") and rng.chance(0.15):
+        # nobody reads standard error any more / it has no space left: the files of the batch are processed all the same
+        step["stderr"] = rng.pick(["full", "epipe"])
+    world = {"files": files + extra}
+    if links:
+        world["symlinks"] = links
+    if hardlinks:
+        world["hardlinks"] = hardlinks
+    return {"prop": PROP, "seed": seed, "world": world, "metas": metas, "opts": opts, "family": family,
             "poison": case_poison, "usage": usage, "named_dirs": named_dirs,
             "variants": [{"hashseed": hs[0], "steps": [dict(step)]}, {"hashseed": hs[1], "steps": [dict(step)]}]}
 
@@ -309,6 +327,10 @@ def oracle(case, results):
         rec = results[vi]["records"][0]
         diff = {k: d for k, d in (rec.get("diff") or {}).items()
                 if not (d.get("before") and d.get("after") and d["before"][0] == "d" and d["after"][0] == "d" and d["before"] == d["after"])}
+        if rec.get("exc") and var["steps"][0].get("stderr") and rec["exc"]["where"].startswith("utils.py:echo") and not diff:
+            # standard error is broken and click could not print its usage message: the run ended before any file was
+            # touched, which is all the statement asks of a usage error
+            continue
         if rec.get("exc"):
             vs.append({"sig": f"C11/crashed/{rec['exc']['type']}@{rec['exc']['where']}", "detail": rec["exc"]["tb"][-600:]})
             continue
